@@ -356,7 +356,28 @@ def run(ctx):
                 if idv[0] == 'agg' and idv[2]:
                     idv = idv[2][0]
                 got.append((ty, idv[1] if idv[0] == 'const' else show(idv)))
-        if got == want:
+        # both fields are written for every value: no Ok path avoids either header call
+        import skippers as _sk
+        cond_field = None
+        oks = set(_sk._ok_exit_blocks(b))
+        succ = b.cfg[0]
+        for cs in b.calls():
+            if cs.name != callee:
+                continue
+            seen, stk = {0}, [0]
+            while stk:
+                x = stk.pop()
+                if x == cs.bb:
+                    continue
+                for y in succ[x]:
+                    if y not in seen:
+                        seen.add(y)
+                        stk.append(y)
+            if (seen - {cs.bb}) & oks and 0 != cs.bb:
+                cond_field = cs
+        if got == want and cond_field is not None:
+            rep.bad('R03.e', key, cond_field.loc(), 'TApplicationException %s writes a field only under a condition: the standard struct carries both `1: string message` and `2: i32 type` for every value (a peer would read "message absent" for an empty message)' % name)
+        elif got == want:
             rep.ok('R03.e', key, 'fields (1: Binary message, 2: I32 type)', b.loc())
         else:
             rep.bad('R03.e', key, b.loc(), 'TApplicationException %s writes fields %s; the standard struct is %s' % (name, got, want))
@@ -393,4 +414,5 @@ def run(ctx):
     rep.floor('R03.d', 7)
     rep.floor('R03.e', 4)
     tp.compact_typestate(rep, 'R03.f', prog, cg)
+    tp.long_form_id_becomes_context(rep, 'R03.d', prog, cg)
     return rep
